@@ -528,12 +528,13 @@ class Interp:
         if isinstance(container, (PList, PSet)):
             return pyops._disj([pyops.py_eq(item, x) for x in container.items])
         if isinstance(container, PDict):
-            if is_concrete(item):
+            sym = getattr(container, "sym_items", [])
+            if is_concrete(item) and not sym:
                 try:
                     return item in container.d
                 except TypeError:
                     raise PyExc("TypeError")
-            return pyops._disj([pyops.py_eq(item, k) for k in container.d])
+            return pyops._disj([pyops.py_eq(item, k) for k in list(container.d) + [k for k, _v in sym]])
         if isinstance(container, SSetZ):
             it = self.force(item)
             if it is None:
@@ -597,6 +598,11 @@ class Interp:
                             v = self.default_field_value(ci, attr)
                             base.fields[attr] = v
                             return v
+                init = self.init_default(ci, attr)
+                if init is not _MISSING:
+                    base.fields[attr] = init
+                    self.ctx.use(f"A-init: field {base.cls}.{attr} unknown to the harness, taken at its __init__ value")
+                    return init
             raise Unsupported(f"attribute {base.cls}.{attr} not modelled (object {base.label})")
         if isinstance(base, SRef):
             return self.heap_get(base, attr)
@@ -651,6 +657,35 @@ class Interp:
         # str / list / dict / ... methods
         return BoundMethod(base, attr)
 
+    def init_default(self, ci: ClassInfo, attr: str):
+        """value assigned to self.<attr> by the class's __init__ when it is a literal / empty container"""
+        for c in self.repo.mro(ci):
+            fn = c.methods.get("__init__")
+            if fn is None:
+                continue
+            for sub in ast.walk(fn):
+                tgt = None
+                if isinstance(sub, ast.Assign) and len(sub.targets) == 1:
+                    tgt, val = sub.targets[0], sub.value
+                elif isinstance(sub, ast.AnnAssign) and sub.value is not None:
+                    tgt, val = sub.target, sub.value
+                if tgt is not None and isinstance(tgt, ast.Attribute) and isinstance(tgt.value, ast.Name) and tgt.value.id == "self" and tgt.attr == attr:
+                    try:
+                        lit = ast.literal_eval(val)
+                    except Exception:
+                        if isinstance(val, ast.Call) and isinstance(val.func, ast.Name) and val.func.id in ("dict", "list", "set") and not val.args:
+                            lit = {"dict": {}, "list": [], "set": set()}[val.func.id]
+                        else:
+                            return _MISSING
+                    if isinstance(lit, dict):
+                        return PDict(lit)
+                    if isinstance(lit, list):
+                        return PList(lit)
+                    if isinstance(lit, set):
+                        return PSet(list(lit))
+                    return lit
+        return _MISSING
+
     def default_field_value(self, ci: ClassInfo, attr: str):
         """An unconstrained value for a dataclass field the harness did not set, typed by the field's annotation."""
         ann = None
@@ -692,6 +727,12 @@ class Interp:
     def index(self, base, idx):
         if isinstance(base, Ignored):
             return Ignored(base.what)
+        if isinstance(base, PDict) and getattr(base, "sym_items", None):
+            idx = self.force(idx)
+            for k, v in base.sym_items:
+                e = pyops.py_eq(idx, k)
+                if (e if isinstance(e, bool) else self.ctx.decide(e, "dict-symkey")):
+                    return v
         if isinstance(base, PDict):
             idx = self.force(idx)
             if is_concrete(idx):
@@ -1418,7 +1459,11 @@ class Interp:
     def setitem(self, base, idx, v):
         if isinstance(base, PDict):
             if not is_concrete(idx):
-                raise Unsupported("dict store with symbolic key")
+                # symbolic key: kept in an association list (latest first); lookups become if-then-else chains
+                if any(not is_concrete(k) and not isinstance(k, tuple) and not isinstance(k, Sym) for k in [idx]):
+                    raise Unsupported("dict store with a key of unsupported kind")
+                base.__dict__.setdefault("sym_items", []).insert(0, (idx, v))
+                return
             base.d[idx] = v
         elif isinstance(base, PList) and isinstance(idx, int):
             try:
